@@ -116,6 +116,7 @@ const (
 )
 
 func check(c Case) error {
+	histApplied := false
 	t, err := gt.FromModel(c.Tree)
 	if err != nil {
 		return fmt.Errorf("parser rejects the start tree: %v", err)
@@ -126,6 +127,7 @@ func check(c Case) error {
 			return herr
 		} else if ok {
 			t, c.Tree = t2, m2
+			histApplied = true
 			c.Reroot = 0 // the history re-roots by itself (RerootBoth needs a freshly parsed tree)
 		} else if t, err = gt.FromModel(c.Tree); err != nil {
 			return err
@@ -176,8 +178,15 @@ func check(c Case) error {
 	case "support":
 		t.CollapseLowSupport(c.Thr, c.RemoveRoot)
 	case "depth":
-		if err := t.ReinitIndexes(); err != nil {
-			return err
+		// collapsing and resolving end by recomputing the subtree sizes of every branch: a depth
+		// collapse that follows one of them directly works on those (after an even number of edits the
+		// check, unlike the command, does not ask for the indexes once more)
+		fresh := len(c.History) > 0 && len(c.History)%2 == 0 && histApplied &&
+			(ops.LastApplied == "collapse_len" || ops.LastApplied == "collapse_sup" || ops.LastApplied == "collapse_depth" || ops.LastApplied == "resolve")
+		if !fresh {
+			if err := t.ReinitIndexes(); err != nil {
+				return err
+			}
 		}
 		if err := t.CollapseTopoDepth(c.Min, c.Max, c.RemoveRoot, c.RemoveTips); err != nil {
 			return fmt.Errorf("CollapseTopoDepth failed: %v", err)
